@@ -13,7 +13,7 @@ package phttp
 //@ modifies nothing
 
 //@ iface Client.Do
-//@ ensures [response-or-error] imp(result1 == nil, result0 != nil && result0.Body != nil)
+//@ ensures [response-or-error] imp(result1 == nil, result0 != nil && result0.Body != nil) && (result0 == nil || fresh(result0))
 
 // The optional Connect hook reports its own failure as a sample (see base_test.go: "Connect should report fail in sample itself").
 //@ fieldfunc BaseGun.Connect
